@@ -424,15 +424,18 @@ def judge_eig_svd(ctx, c, x, params):
     got = sorted((s * ren for s in S), reverse=True)
     # eigenvalue route: absolute accuracy ~ sqrt(machine precision) * largest singular value
     tol = 3e-7 * top
+    # (the eigenvalue route returns one value per row resp. column: min(M, N) singular values and |M - N| zeros)
+    m = max(len(got), len(sv))
+    sv = sv + [0.0] * (m - len(sv))
     if c['opts'] is None:
-        if len(got) != len(sv) or any(abs(a - b) > tol for a, b in zip(got, sv)):
+        if any(abs(a - b) > tol for a, b in zip(got + [0.0] * (m - len(got)), sv)):
             p.append('S*renormalization %s are not the singular values %s' % (got[:5], sv[:5]))
         if abs(ren - x['norm_A']) > 1e-9 * x['norm_A']:
             p.append('renormalization %r != norm of the matrix %r (nothing truncated)' % (ren, x['norm_A']))
         if x['eps'] != 0.0:
             p.append('nothing truncated but eps = %r' % x['eps'])
     else:
-        if len(got) > len(sv) or any(abs(a - b) > tol for a, b in zip(got, sv)):
+        if any(abs(a - b) > tol for a, b in zip(got, sv)):
             p.append('S*renormalization %s are not the largest singular values %s' % (got[:5], sv[:5]))
         cm = c['opts'].get('chi_max')
         if cm not in (None, 'absent') and len(got) > cm:
